@@ -31,6 +31,11 @@ CHECKS = {
         text="Generated message streams (with corrupted header fields and truncation) are fed to an asyncio.StreamReader in generated chunkings while SOMEIPHeader.read / SOMEIPReader.read run concurrently on the virtual loop; results are compared message by message and at the terminating condition with repeated SOMEIPHeader.parse on the concatenation. All single and double cut positions are enumerated for four short streams.",
         note="Trusted: virtual loop, asyncio.StreamReader. The datagram decoder is the reference named by the statement (C01 ties it to the independent codec).",
     ),
+    "C20": dict(
+        technique="property-based testing: decode-encode-decode idempotence with field-wise comparison through an independent decoder, inputs from a non-canonical independent encoder plus mutation scripts (Hypothesis), all 256 option type bytes enumerated",
+        text="Every accepted input (SOME/IP message, SD message, SD entry, SD option) produced by a legal-but-non-canonical independent encoder and by mutating its output is decoded, re-encoded and decoded again; values must be equal with nothing left over, SOME/IP bytes identical, and kept information (unknown options, flags, protocol numbers, unreferenced options, raw indexes/counts) is compared through the independent decoder; the resolved path must not lose options.",
+        note="Trusted: harness/wire.py. Rejected inputs are out of scope (C03).",
+    ),
 }
 ALL = ["C%02d" % i for i in range(1, 21)]
 NOT_APPLICABLE = {p: "check not built yet in this revision (in progress); the technique applies" for p in ALL if p not in CHECKS}
